@@ -460,6 +460,11 @@ class UpdateCollection(Message):
                 yield self._message(UpdateCollection.prefix(withdraws) + UpdateCollection.prefix(attr) + announced)
             else:
                 yield self._message(UpdateCollection.prefix(withdraws) + UpdateCollection.prefix(b'') + announced)
+            # these went out with the message above: left in place they were counted against the room
+            # of the first MP_REACH_NLRI ('NLRI too large' once the IPv4 part had filled a message)
+            # and sent a second time in front of it
+            withdraws = b''
+            announced = b''
 
         # Get all families that have MP announces or withdraws
         all_mp_families = set(mp_announces.keys()) | set(mp_withdraws.keys())
